@@ -209,16 +209,21 @@ class Lockstep:
                 if not r:
                     out.append((c, msg, line))
             return out
+        # compared as SETS: evaluating a pure partial operation earlier, later or twice changes at most which of two library errors
+        # surfaces first on an input that fails anyway (explicit raises are outcomes, not events, and keep their order)
         rl, sl = live(rev), live(sev)
-        if len(rl) != len(sl):
-            extra = rl[len(sl):] if len(rl) > len(sl) else sl[len(rl):]
-            side = "real" if len(rl) > len(sl) else "spec"
-            self.ob(name + "/may-raise", hyps, z3.BoolVal(False),
-                    info + "; the %s path passes a partial operation the other does not (line %s): %s" % (side, extra[0][2], str(extra[0][0])[:160]))
+        rs, ss = {c.sexpr(): (c, l) for c, m, l in rl}, {c.sexpr(): (c, l) for c, m, l in sl}
+        only_r = [rs[k] for k in sorted(set(rs) - set(ss))]
+        only_s = [ss[k] for k in sorted(set(ss) - set(rs))]
+        if not only_r and not only_s:
             return
-        for (c1, m1, l1), (c2, m2, l2) in zip(rl, sl):
-            if c1.sexpr() != c2.sexpr():
-                self.ob(name + "/may-raise", hyps, c1 == c2, info + "; partial operation at real line %s: %s" % (l1, str(c1)[:120]))
+        # a leftover operation on one side must be matched by a provably equal one on the other, or be impossible to fail
+        for side, left, other in (("real", only_r, only_s), ("spec", only_s, only_r)):
+            for c, line in left:
+                alts = [c == c2 for c2, _ in other]
+                goal = z3.Or(c == 0, *alts) if alts else (c == 0)
+                self.ob(name + "/may-raise", hyps, goal,
+                        info + "; the %s path passes a partial operation the other does not (line %s): %s" % (side, line, str(c)[:160]))
 
     def compare_final(self, fname, ro, so, st0):
         hyps = so.st.conds
